@@ -163,8 +163,61 @@ def compare(op: str, a, b):
                     FACTS.generic_inequalities.append(f"{big} > {small} (generic magnitude)")
                     s = sg * ((c > 0) - (c < 0))
     if s is None:
+        s = _numeric_sign(d)
+    if s is None:
         raise Unsupported(f"cannot decide sign of {d} (comparison {op})")
     return {"lt": s < 0, "le": s <= 0, "gt": s > 0, "ge": s >= 0}[op]
+
+
+def _numeric_sign(d) -> Optional[int]:
+    """Sign of an expression built from rational constants and function atoms with constant arguments (acos(3/5), sqrt(2), ...):
+    evaluated numerically; decided only when the value is well away from zero."""
+    v = numeric_value(d)
+    if v is None or abs(v) < 1e-9:
+        return None
+    return 1 if v > 0 else -1
+
+
+def numeric_value(d) -> Optional[float]:
+    """Floating-point value of a *constant* expression (rational constants and function atoms with constant arguments), else None."""
+    import math
+    fn = {"acos": math.acos, "asin": math.asin, "atan": math.atan, "sqrt": math.sqrt, "exp": math.exp, "log": math.log, "tanh": math.tanh,
+          "atanh": math.atanh, "cos": math.cos, "sin": math.sin, "tan": math.tan}
+
+    def val_atom(a: str) -> Optional[float]:
+        if a not in _FUNC_ARG or "(" not in a:
+            return None
+        name = a[:a.index("(")]
+        arg = _FUNC_ARG[a]
+        if name not in fn:
+            return None
+        av = val(arg)
+        if av is None:
+            return None
+        try:
+            return fn[name](av)
+        except (ValueError, OverflowError):
+            return None
+
+    def val_poly(p) -> Optional[float]:
+        tot = 0.0
+        for m, c in p.terms.items():
+            t = float(c)
+            for a, e in m:
+                v = val_atom(a)
+                if v is None:
+                    return None
+                t *= v ** e
+            tot += t
+        return tot
+
+    def val(r) -> Optional[float]:
+        r = to_rat(r)
+        n, dd = val_poly(r.num), val_poly(r.den)
+        if n is None or dd is None or dd == 0:
+            return None
+        return n / dd
+    return val(d)
 
 
 def _num_cmp(op, a, b):
@@ -1386,6 +1439,18 @@ def sfunc(name: str, x, *more) -> Rat:
                     return Rat.atom(ca) if name == "cos" else Rat.atom(sa) * sign
         if x.is_zero():
             return Rat.of(1 if name == "cos" else 0)
+        # cos / sin of an inverse trigonometric atom: cos(acos c) = c, sin(acos c) = sqrt(1 - c^2) >= 0 (acos in [0, pi]);
+        # sin(asin c) = c, cos(asin c) = sqrt(1 - c^2) >= 0 (asin in [-pi/2, pi/2])
+        if x.den.is_const() and len(x.num.terms) == 1:
+            (m_, c_), = x.num.terms.items()
+            if c_ == x.den.const_value() and len(m_) == 1 and m_[0][1] == 1 and m_[0][0] in _FUNC_ARG:
+                an = m_[0][0]
+                if an.startswith("acos("):
+                    carg = _FUNC_ARG[an]
+                    return carg if name == "cos" else sfunc("sqrt", Rat.of(1) - carg * carg)
+                if an.startswith("asin("):
+                    carg = _FUNC_ARG[an]
+                    return carg if name == "sin" else sfunc("sqrt", Rat.of(1) - carg * carg)
         # general argument: paired atoms cos(y), sin(y) with sin^2 = 1 - cos^2, for the sign-normalised argument y = +-x
         sign = 1
         if x.den.is_const() and not x.num.is_zero():
@@ -1437,6 +1502,10 @@ def sfunc(name: str, x, *more) -> Rat:
             from .ring import declare_square
             if x.den.is_const():
                 declare_square(key, x.num.scale(1 / x.den.const_value()))
+            FACTS.declare_positive(_FUNC_ATOMS[key])
+        if name == "acos" and x.is_const() and -1 <= x.const_value() < 1:
+            FACTS.declare_positive(_FUNC_ATOMS[key])  # acos(c) in (0, pi] for c < 1
+        if name == "asin" and x.is_const() and 0 < x.const_value() <= 1:
             FACTS.declare_positive(_FUNC_ATOMS[key])
     return _FUNC_ATOMS[key]
 
